@@ -151,6 +151,76 @@ def run_diff_iter(progs, job):
     return res
 
 
+def run_diff_pretty(progs, job):
+    """the pretty printer on two feature configurations from the same symbolic forest / start node / renderings / alternate flag:
+    compatible paths must emit the same text and the same result"""
+    import pretty
+    t0 = time.time()
+    res = new_result(job)
+    ea = pretty.explore_pretty(progs[tuple(job['base'])], job)
+    eb = pretty.explore_pretty(progs[tuple(job['other'])], job)
+    if ea is None or eb is None:
+        res['vacuous'] = True; return res
+    eng, A, x, alt, rsel, RS, oa = ea
+    ob = eb[6]
+    res['paths'] = len(oa) + len(ob); res['steps'] = sum(o.state.steps for o in oa) + sum(o.state.steps for o in ob)
+    def obs(o):
+        return (o.kind, ''.join(getattr(o.state, 'out', ())) if o.kind == 'return' else '', getattr(o.state, 'modes', ()))
+    for pa in oa:
+        for pb in ob:
+            if obs(pa) == obs(pb): continue                  # equal observations: nothing to decide
+            pc = list(pa.state.pc) + list(pb.state.pc)
+            res['obligations'] += 1; res['assert_queries'] += 1
+            r = eng.check(pc)
+            if r == z3.unsat: res['discharged'] += 1; continue     # the two paths are never taken by the same input
+            if r == z3.unknown: res['unknown'] = 'query unknown'; continue
+            m = eng.solver.model()
+            res['violations'].append({'kind': 'custom', 'module': 'c17', 'confirm': 'confirm_pretty', 'checks': ['C17.same_pretty_text[%s]' % job['trait']], 'op': 'pretty_' + job['trait'].lower(),
+                                      'N': job['N'], 'cfg': job['other'][0], 'feat': [job['base'][1], job['other'][1]], 'pre': A.model_dict(m), 'role': 'pretty',
+                                      'got': [obs(pa)[1], obs(pb)[1]],
+                                      'args': {'x': m.eval(x, model_completion=True).as_long(), 'alt': z3.is_true(m.eval(alt, model_completion=True)), 'trait': job['trait'],
+                                               'texts': [RS[m.eval(r_, model_completion=True).as_long()][0] for r_ in rsel],
+                                               'chunks': [RS[m.eval(r_, model_completion=True).as_long()][1] for r_ in rsel]}})
+            if len(res['violations']) > 4: break
+    res['nontrivial'] = len(oa)
+    res['samples'].append({'differential': 'pretty_' + job['trait'], 'N': job['N'], 'configs': [job['base'], job['other']], 'paths': [len(oa), len(ob)]})
+    res['feas_queries'] = eng.nq + eb[0].nq; res['solver_time'] += eng.tq + eb[0].tq
+    res['wall'] = time.time() - t0
+    return res
+
+
+def confirm_pretty(prop, v):
+    """native: print the model's tree with both feature builds of the replayer and compare the text"""
+    import replay, os, subprocess, pretty, ast
+    pre = v['pre']; a = v['args']
+    for i, s in enumerate(pre['slots']):
+        if s['stamp'] >= 0: s['data'] = i
+    mode = ('display' if a['trait'] == 'Display' else 'debug') + ('_alt' if a['alt'] else '')
+    outs = {}; detail = {}
+    for feat in v.get('feat', ['std', 'nostd']):
+        env = dict(os.environ); env['CARGO_NET_OFFLINE'] = 'true'
+        td = os.path.join(replay.RDIR, 'target-' + feat); env['CARGO_TARGET_DIR'] = td
+        p = subprocess.run(['cargo', 'build', '--offline', '--quiet', '--no-default-features', '--features', 'ix-' + feat], cwd=replay.RDIR, env=env, stdout=subprocess.PIPE, stderr=subprocess.PIPE, text=True)
+        if p.returncode != 0:
+            detail[feat] = {'build_failed': p.stderr[-400:]}; continue
+        replay._built['feat-' + feat] = os.path.join(td, 'debug', 'replayer')
+        lines = replay.construct_script(pre)
+        n0 = len(lines)
+        for n in range(1, len(pre['slots']) + 1):
+            lines.append('render %d %s' % (n - 1, '|~|'.join(c.replace('\n', '\\n').replace('\r', '\\r') for c in a['chunks'][n - 1])))
+        lines.append('pretty %s s%d' % (mode, a['x']))
+        res = replay.run_script(lines, 'feat-' + feat)
+        d = res.get(n0 - 1)
+        try: ok = replay.same_state(replay.parse_dump(d[1]), pre)
+        except Exception: ok = False
+        outs[feat] = (ok, res.get(len(lines) - 1))
+        detail[feat] = {'pre_ok': ok, 'printed': str(res.get(len(lines) - 1))[:300]}
+    if len(outs) < 2: return 'not_reproduced', detail
+    vals = list(outs.values())
+    if not all(o[0] for o in vals): return 'unreachable', detail
+    return ('reproduced' if any(o[1] != vals[0][1] for o in vals[1:]) else 'not_reproduced'), detail
+
+
 def run_identity_job(progs_texts, job):
     """textual part: every function of the base configuration has an identical body (modulo module-path printing) in the other"""
     t0 = time.time()
